@@ -294,6 +294,23 @@ func init() {
 				Budget: sim.Budget{Cuts: 3, Crashes: 1, Restarts: 1, Steps: 36, Reorders: -1, MsgSteps: 2, Deviations: d}})
 		}
 	}
+	// C16 seed S-snapcatchup (snapshots of two requests): n1 was down while the
+	// leader n0 compacted its log, came back cut off from everybody and stayed
+	// silent for 8 intervals; the link n0-n2 is cut, so n2 campaigns but still
+	// reaches n1. The partition around n1 has healed and n1 has just heard from
+	// n0 (first snapshot request): from here on n0 is in prompt contact with the
+	// majority {n0, n1} while n1 is caught up by a snapshot that takes several
+	// heartbeats to transfer, and one prevote of n2 is on its way to n1.
+	snapCatchup := append(append([]sim.Event{}, seedLeader3...), sim.MustParse(
+		"crash n1", "write n0", "adv", "write n0", "adv", "write n0", "adv", "restart n1", "isolate n1", "cut n0 a=2",
+		"adv", "adv", "adv", "adv", "adv", "adv", "adv", "adv", "heal", "cut n0 a=2",
+		"drop 0>1:IS#3", "drop 0>1:IS#4", "drop 0>1:IS#5", "drop 0>1:IS#6", "drop 0>1:IS#7", "drop 0>1:IS#8", "drop 0>1:IS#9", "drop 0>1:IS#10",
+		"drop 1>0:RV#0", "drop 1>2:RV#0", "rt 0>1:IS#11")...)
+	for d := 0; d <= 4; d++ {
+		reg(&explore.Suite{Name: fmt.Sprintf("stickysnap3-d%d", d), Cfg: sim.Config{Voters: 3, Timed: true, Asym: true, SnapAt: 2, SnapPad: 33 * 1024}, Seed: snapCatchup,
+			Monitors: stickyMonitors(0, []int{0, 1}), Filter: onlyNodes(2),
+			Budget: sim.Budget{Cuts: 2, Steps: 12, Reorders: -1, MsgSteps: 4, Deviations: d}})
+	}
 	// C16 seed S-isolated: n2 has been cut off for 10 intervals and is campaigning
 	isolated := append(append([]sim.Event{}, seedLeader3...), sim.MustParse("isolate n2", "adv", "adv", "adv", "adv", "adv", "adv", "adv", "adv", "adv", "adv")...)
 	for d := 0; d <= 4; d++ {
